@@ -416,3 +416,152 @@ def meta_scenarios():
     sc['meta:unknown'] = [Ev('unknown_meta', 'unknown_meta', {'data': AList([SeqVar('U', 255)], 'tuple')}, tsym('t1'), type_byte=0x60)]
     sc['meta:unknown-empty'] = [Ev('unknown_meta', 'unknown_meta', {'data': ()}, tsym('t1'), type_byte=0x0a)]
     return sc
+
+
+# --------------------------------------------------------------------------- one-step (inductive) agreement
+def _first_loop(fn_node, kinds):
+    import ast
+    for st in fn_node.body:
+        if isinstance(st, kinds):
+            return st
+    for st in ast.walk(fn_node):
+        if isinstance(st, kinds):
+            return st
+    return None
+
+
+def writer_step(ctx, ai, ev, running):
+    """Interpret ONE iteration of write_track's message loop: -> list of (emitted items, running status afterwards) outcomes."""
+    import ast
+    wt = ctx.fn(ctx.p.func(MF, 'write_track'))
+    loop = _first_loop(wt.node, (ast.For,))
+    if loop is None or not isinstance(loop.target, ast.Name):
+        raise AnalysisError('write_track has no message loop')
+    names = {n.id for n in ast.walk(loop) if isinstance(n, ast.Name)}
+    data_names = [t.id for st in wt.node.body if isinstance(st, ast.Assign) for t in st.targets
+                  if isinstance(t, ast.Name) and isinstance(st.value, ast.Call) and getattr(st.value.func, 'id', '') == 'bytearray']
+    rs_names = [t.id for st in wt.node.body if isinstance(st, ast.Assign) for t in st.targets
+                if isinstance(t, ast.Name) and isinstance(st.value, ast.Constant) and st.value.value is None]
+    if len(data_names) != 1 or len(rs_names) != 1:
+        raise Unsupported('write_track: cannot identify the byte buffer and the running status variable')
+    dn, rn = data_names[0], rs_names[0]
+    holder = {}
+
+    def thunk():
+        env = {loop.target.id: ev.build(ai, ctx), dn: AList([], 'bytearray'), rn: running, wt.params()[0]: AFile(name='out'), wt.params()[1]: AList([], 'MidiTrack')}
+        ai.ex_block(loop.body, env, wt.module)
+        return list(env[dn].items), env[rn]
+    return wt, ai.explore(thunk, limit=16)
+
+
+def reader_step(ctx, ai, items, last_status):
+    """Interpret ONE iteration of read_track's event loop on the given wire items."""
+    import ast
+    rt = ctx.fn(ctx.p.func(MF, 'read_track'))
+    loop = _first_loop(rt.node, (ast.While,))
+    if loop is None:
+        raise AnalysisError('read_track has no event loop')
+    ls_names = [t.id for st in rt.node.body if isinstance(st, ast.Assign) for t in st.targets
+                if isinstance(t, ast.Name) and isinstance(st.value, ast.Constant) and st.value.value is None]
+    tr_names = [t.id for st in rt.node.body if isinstance(st, ast.Assign) for t in st.targets
+                if isinstance(t, ast.Name) and isinstance(st.value, ast.Call) and getattr(st.value.func, 'id', '') == 'MidiTrack']
+    if len(ls_names) != 1 or len(tr_names) != 1:
+        raise Unsupported('read_track: cannot identify the running status variable and the track')
+    ln, tn = ls_names[0], tr_names[0]
+
+    def thunk():
+        f = AFile(stream=list(items) + [0x7e, 0x7e, 0x7e], name='in')
+        env = {rt.params()[0]: f, ln: last_status, tn: AList([], 'MidiTrack'), 'start': 0, 'size': 10 ** 9, 'debug': False, 'clip': False, 'name': b'MTrk'}
+        for p_, d_ in zip(rt.params()[1:], (False, False)):
+            env[p_] = d_
+        ai.ex_block(loop.body, env, rt.module)
+        return env[tn], env[ln], f
+    return rt, ai.explore(thunk, limit=16)
+
+
+def step_events():
+    """(label, Ev, status value or None for non-channel) for the inductive step."""
+    out = []
+    for t in CH_TYPES:
+        a = msg_attrs(t, 's')
+        st, _ = ref_message_bytes(t, a)
+        out.append((t, Ev('message', t, a, tsym('ts')), st))
+    for t in COMMON_TYPES:
+        a = msg_attrs(t, 's')
+        out.append((t, Ev('message', t, a, tsym('ts')), None))
+    out.append(('sysex-empty', Ev('message', 'sysex', {'data': AList([], 'tuple')}, tsym('ts')), None))
+    out.append(('sysex', Ev('message', 'sysex', {'data': AList([sym('x0', 127), SeqVar('X', 127)], 'tuple')}, tsym('ts')), None))
+    out.append(('meta-text', Ev('meta', 'lyrics', {'text': StrSym('T')}, tsym('ts')), None))
+    out.append(('meta-tempo', Ev('meta', 'set_tempo', {'tempo': sym('tempo', 0xffffff)}, tsym('ts')), None))
+    out.append(('meta-eot', Ev('meta', 'end_of_track', {}, tsym('ts')), None))
+    out.append(('meta-unknown', Ev('unknown_meta', 'unknown_meta', {'data': AList([SeqVar('U', 255)], 'tuple')}, tsym('ts'), type_byte=0x60), None))
+    return out
+
+
+def inductive_agreement(ctx, ai, rule_w, rule_r):
+    """For every event kind and every writer pre-state (running status None / equal / different) the step emits the
+    reference bytes and the right post-state; for every reader pre-state consistent with the invariant
+    `writer.running == S  =>  reader.last_status == S` the reader step returns the event and re-establishes it."""
+    n = 0
+    for label, ev, st in step_events():
+        other = 0xb5 if label != 'control_change' else 0x95           # an unrelated channel status (different type nibble)
+        pres = [('none', None), ('other', other)]
+        if st is not None:
+            pres.append(('same', st))
+        for pname, running in pres:
+            n += 1
+            wt, outs = writer_step(ctx, ai, ev, running)
+            w = ctx.where(wt)
+            inst = f'step[{label}, running={pname}]'
+            cons = f'{wt.qname}::step::{label if st is None else "channel"}::{pname}'
+            if len(outs) != 1 or outs[0].kind != 'return':
+                ctx.fail(rule_w, inst + '.write', w, f'one writer step does not complete on one path: {outs}', construct=cons + '::outcomes')
+                continue
+            items, post = outs[0].value
+            # reference
+            want = [VLQ(ev.time)]
+            if ev.kind == 'meta':
+                P = ref_meta_payload(ev.type, ev.attrs)
+                want += [0xff, reference.META_SPECS[ev.type][0], VLQ(wire.size_of(P))] + P
+                wpost = None
+            elif ev.kind == 'unknown_meta':
+                P = list(ev.attrs['data'].items)
+                want += [0xff, ev.type_byte, VLQ(wire.size_of(P))] + P
+                wpost = None
+            elif ev.type == 'sysex':
+                D = list(ev.attrs['data'].items)
+                want += [0xf0, VLQ(_plus1(wire.size_of(D)))] + D + [0xf7]
+                wpost = None
+            else:
+                s2, data = ref_message_bytes(ev.type, ev.attrs)
+                omit = running is not None and wire.value_equal(s2, running)
+                want += ([] if omit else [s2]) + data
+                wpost = s2 if st is not None else None
+            ctx.require(wire.items_equal(items, want), rule_w, inst + '.bytes', w,
+                        f'writes {describe(items)}; SMF: {describe(want)}', construct=cons + '::bytes')
+            ctx.require((post is None and wpost is None) or (post is not None and wpost is not None and wire.value_equal(post, wpost)), rule_w,
+                        inst + '.running-status', w, f'running status afterwards is {post!r}, must be {wpost!r}', construct=cons + '::post')
+            # reader pre-states consistent with the invariant
+            if pname == 'same':
+                rpres = [('same', running)]
+            else:
+                rpres = [('none', None), ('other', other), ('sysex', 0xf0), ('common', 0xf3)] if pname == 'none' else [('other', other)]
+            for rname, last in rpres:
+                rt, routs = reader_step(ctx, ai, want, last)
+                wr = ctx.where(rt)
+                rinst = f'step[{label}, running={pname}, reader last_status={rname}]'
+                rcons = f'{rt.qname}::step::{label if st is None else "channel"}::{pname}/{rname}'
+                if len(routs) != 1 or routs[0].kind != 'return':
+                    ctx.fail(rule_r, rinst + '.read', wr, f'one reader step does not complete on one path: {routs}', construct=rcons + '::outcomes')
+                    continue
+                tr, rpost, f = routs[0].value
+                ok = isinstance(tr, AList) and len(tr.items) == 1
+                why = f'reader step produced {tr!r}'
+                if ok:
+                    ok, why = same_message(ev, tr.items[0], ctx)
+                ctx.require(ok and f.pos == len(want) and not f.bad, rule_r, rinst + '.event', wr,
+                            f'{why}; consumed {f.pos} of {len(want)} items {f.bad}', construct=rcons + '::event')
+                if wpost is not None:
+                    ctx.require(rpost is not None and wire.value_equal(rpost, wpost), rule_r, rinst + '.invariant', wr,
+                                f'writer keeps running status {wpost!r} but the reader remembers {rpost!r}', construct=rcons + '::invariant')
+    ctx.floor(rule_w + '-steps', n, 40)
